@@ -151,8 +151,12 @@ type Factory struct {
 	edKey  ed25519.PrivateKey
 	certs  map[string]*built
 	own    map[int]*x509.Certificate
+	byDER  map[string]int
 	nextID int
 }
+
+// RawID returns the Raw id of a certificate built by this factory (0 if unknown).
+func (f *Factory) RawID(x *x509.Certificate) int { return f.byDER[string(x.Raw)] }
 
 type built struct {
 	raw  int
@@ -163,7 +167,7 @@ func NewFactory() *Factory {
 	_, ed, err := ed25519.GenerateKey(rand.Reader)
 	must(err)
 	return &Factory{keys: map[int]*ecdsa.PrivateKey{}, edKey: ed, certs: map[string]*built{},
-		own: map[int]*x509.Certificate{}}
+		own: map[int]*x509.Certificate{}, byDER: map[string]int{}}
 }
 
 // NumCerts is the number of distinct certificates built so far.
@@ -206,8 +210,21 @@ func (n Name) iaString() string {
 			return "garbage"
 		}
 	}
-	return fmt.Sprintf("%d-%s", n.IA.ISD, addr.AS(n.IA.AS))
+	return fmt.Sprintf("%d-%s", n.IA.ISD, RealAS(n.IA.AS))
 }
+
+// RealAS maps the abstract AS number (a small integer, 0 = wildcard) to the
+// AS number used in the real objects. Abstract numbers are kept small because
+// coqc spends its time parsing literals.
+func RealAS(a uint64) addr.AS {
+	if a == 0 {
+		return 0
+	}
+	return addr.AS(0xff0000000000 + a)
+}
+
+// T0 is the origin of the abstract time axis (whole seconds).
+const T0 = int64(1700000000)
 
 // PKIX builds the distinguished name.
 func (n Name) PKIX() pkix.Name {
@@ -222,7 +239,7 @@ func (n Name) PKIX() pkix.Name {
 	return p
 }
 
-func ts(sec int64) time.Time { return time.Unix(sec, 0).UTC() }
+func ts(sec int64) time.Time { return time.Unix(T0+sec, 0).UTC() }
 
 type basicConstraints struct {
 	IsCA       bool `asn1:"optional"`
@@ -298,6 +315,7 @@ func (f *Factory) Build(c Cert) (*x509.Certificate, Cert) {
 	must(err)
 	f.nextID++
 	f.certs[k] = &built{raw: f.nextID, cert: cert}
+	f.byDER[string(cert.Raw)] = f.nextID
 	c.Raw = f.nextID
 	return cert, c
 }
@@ -322,10 +340,10 @@ func (f *Factory) BuildTRC(t TRC) (cppki.TRC, TRC) {
 		out.Votes = append(out.Votes, int(v))
 	}
 	for _, a := range t.Core {
-		out.CoreASes = append(out.CoreASes, addr.AS(a))
+		out.CoreASes = append(out.CoreASes, RealAS(a))
 	}
 	for _, a := range t.Auth {
-		out.AuthoritativeASes = append(out.AuthoritativeASes, addr.AS(a))
+		out.AuthoritativeASes = append(out.AuthoritativeASes, RealAS(a))
 	}
 	cs := make([]Cert, len(t.Certs))
 	for i, c := range t.Certs {
@@ -340,22 +358,13 @@ func (f *Factory) BuildTRC(t TRC) (cppki.TRC, TRC) {
 
 // ---------------------------------------------------------------- signer infos
 
-func findBy(pool []Cert, iss Name, serial int64) (Cert, bool) {
-	for _, c := range pool {
-		if c.Issuer == iss && c.Serial == serial {
-			return c, true
-		}
-	}
-	return Cert{}, false
-}
-
 func (f *Factory) ownCert(keyID int) *x509.Certificate {
 	if x, ok := f.own[keyID]; ok {
 		return x
 	}
 	key := f.Key(keyID)
 	tmpl := &x509.Certificate{SerialNumber: big.NewInt(1), Subject: pkix.Name{CommonName: "signer"},
-		NotBefore: ts(0), NotAfter: ts(4000000000)}
+		NotBefore: ts(-1000000), NotAfter: ts(1000000000)}
 	der, err := x509.CreateCertificate(rand.Reader, tmpl, tmpl, key.Public(), key)
 	must(err)
 	x, err := x509.ParseCertificate(der)
@@ -364,10 +373,10 @@ func (f *Factory) ownCert(keyID int) *x509.Certificate {
 	return x
 }
 
-// BuildSI makes the real signer info over payload. A certificate carrying the
-// claimed issuer and serial is needed to encode the SID; it is looked up in
-// pool (abstract certificates with Raw set or not) and otherwise made up.
-func (f *Factory) BuildSI(s SI, payload []byte, pool []Cert) protocol.SignerInfo {
+// BuildSI makes the real signer info over payload. The SID of kind 1 is taken
+// from a made-up certificate carrying the claimed issuer name and serial
+// number (the encoding of a name is a function of the abstract name).
+func (f *Factory) BuildSI(s SI, payload []byte) protocol.SignerInfo {
 	keyID := s.Key
 	if keyID == 0 {
 		keyID = 8999
@@ -400,14 +409,8 @@ func (f *Factory) BuildSI(s SI, payload []byte, pool []Cert) protocol.SignerInfo
 		si.SID = reparse(asn1.RawValue{Class: asn1.ClassContextSpecific, Tag: 0, Bytes: content})
 	default:
 		si.Version = s.Kind
-		ref, ok := findBy(pool, s.Issuer, s.Serial)
-		var x *x509.Certificate
-		if ok {
-			x, _ = f.Build(ref)
-		} else {
-			x, _ = f.Build(Cert{EKUs: []int{1}, TS: true, PathLen: -1, SigAlgOK: true, SKID: 1,
-				Subject: s.Issuer, Issuer: s.Issuer, Serial: s.Serial, NB: 0, NA: 4000000000, Key: 8998})
-		}
+		x, _ := f.Build(Cert{EKUs: []int{1}, TS: true, PathLen: -1, SigAlgOK: true, SKID: 1,
+			Subject: s.Issuer, Issuer: s.Issuer, Serial: s.Serial, NB: -1000000, NA: 1000000000, Key: 8998})
 		si.SID, err = protocol.NewIssuerAndSerialNumber(x)
 		must(err)
 	}
